@@ -103,6 +103,10 @@ def place(rng, centre, kind, rmin=0.2, rmax=2.5):
     """a shell centre relative to the ECP centre: `on` (coincident), `axis` (on a coordinate axis), `plane`, `general`"""
     if kind == "on":
         return list(centre)
+    if kind == "near":     # between the on-centre threshold (1e-6) and ordinary distances
+        r = 10 ** rng.uniform(-6, -2) * rng.choice([1.0, 1.0, 1.0, 0.5])
+        d = rand_dir(rng)
+        return [centre[i] + r * d[i] for i in range(3)]
     r = math.exp(rng.uniform(math.log(rmin), math.log(rmax)))
     if kind == "axis":
         ax = rng.randrange(3); s = rng.choice([-1, 1])
@@ -139,6 +143,12 @@ def pair_driver(b, variant_extra=()):
 def run_real(drv, cases, env=None, noscreen=False):
     res = subprocess.run([drv], input=("noscreen 1\n" if noscreen else "") + "\n".join(fmt_case(c) for c in cases) + "\n", stdout=subprocess.PIPE, stderr=subprocess.PIPE, text=True, env=env)
     if res.returncode != 0:
+        done = sum(1 for l in res.stdout.split("\n") if l.startswith("< V"))
+        if done < len(cases):
+            c = cases[done]
+            raise core.ImplCrash("compute_shell_pair crashed (exit %d) on LA=%d, LB=%d, ECP L=%d, %s: %s" % (
+                res.returncode, c["A"]["l"], c["B"]["l"], max(p[1] for p in c["ecp"]["prims"]), "/".join(map(str, c.get("kind", []))), res.stderr[-300:]),
+                {"case": c, "request": fmt_case(c), "noscreen": noscreen})
         raise RuntimeError("corr_pair crashed (%d): %s" % (res.returncode, res.stderr[-800:]))
     runs, cur = [], []
     i = 0
